@@ -32,6 +32,9 @@ for n in names:
             shutil.rmtree(target, ignore_errors=True)
         continue
     env = dict(os.environ, PYTHONPATH=f"{target}/src")
+    scratch_out = tempfile.mkdtemp(prefix="seeded_out_", dir="/tmp")
+    env["VERIF_EVIDENCE_DIR"] = scratch_out
+    env["VERIF_REPLAYS_DIR"] = scratch_out
     if not inplace:
         env["ASYNKIT_REPO"] = target
     try:
@@ -60,6 +63,7 @@ for n in names:
             kind = "caught: " + ("no-failing-input-found" if all("no-failing-input-found" in v for v in vio) else "concrete replay") + f" ({len(vio)} line(s))"
         rows.append((n, prop, b, dm, kind))
     finally:
+        shutil.rmtree(scratch_out, ignore_errors=True)
         if inplace:
             subprocess.run(["git", "-C", "/repo", "checkout", "--", "."])
         else:
